@@ -3,6 +3,7 @@ package main
 import (
 	"bytes"
 	"fmt"
+	"strings"
 
 	"filippo.io/age"
 	"filippo.io/age/verifhook"
@@ -53,7 +54,7 @@ func runC03(cx *ctx) {
 		rr := r.Fork()
 		// one file per iteration; its edits are separate cases
 		var ps []*party
-		if rr.Intn(5) == 0 {
+		if fi == 1 || rr.Intn(5) == 0 { // at least one passphrase file in every run
 			ps = []*party{newScrypt(rr, 1+rr.Intn(3), 22)}
 		} else {
 			for k := 1 + rr.Intn(3); k > 0; k-- {
@@ -79,6 +80,20 @@ func runC03(cx *ctx) {
 			panic(err)
 		}
 		hd, hdrBytes, payload := splitHeader(file)
+		// (0) every identity value first opens the ORIGINAL file (synchronously, before any edit is tried): the edits
+		// below are then presented to identities that have this history — a long-lived identity value is the normal
+		// case in a program that decrypts several files, and nothing it remembers may let an altered header through
+		for k := range ids {
+			out, class, _ := realDecryptFile(file, ids[k:k+1], false)
+			k, out, class := k, out, class
+			cx.ru.Do(func() *h.Case {
+				c := &h.Case{Kind: "original-first", Impl: class, NonTrivial: true, Note: fmt.Sprintf("recipients=[%s] identity %d opens the unmodified file", labelsOf(ps), k)}
+				if !strings.HasPrefix(class, "ok") || !bytes.Equal(out, pt) {
+					c.Oracle = "the unmodified file does not decrypt with the identity of one of its recipients: " + class
+				}
+				return c
+			})
+		}
 		// (1) every single-bit flip of the header (exhaustive for the first files, sampled later)
 		step := 1
 		if fi >= cx.n(2, 8) {
